@@ -203,10 +203,17 @@ theorem wfFacts_of (tbl : List (String × Arity)) (m : Mol) (h : wellFormed tbl 
 
 /-! ### the writer succeeds on well-formed molecules, with an explicit result -/
 
+def fileLinesOrd (m : Mol) (names : List String) : List Line :=
+  prelude m ++ atomsPart m
+    ++ ((sortInteractions m).map (sectionLines m (correspondence m) (widthsOf m).idx)).flatten
+    ++ remainingPartOf m names
+
 def fileLines (m : Mol) : List Line :=
   prelude m ++ atomsPart m
     ++ ((sortInteractions m).map (sectionLines m (correspondence m) (widthsOf m).idx)).flatten
     ++ remainingPart m
+
+theorem fileLinesOrd_default (m : Mol) : fileLinesOrd m (remainingNames m) = fileLines m := rfl
 
 theorem writeSection_ok (tbl) (m : Mol) (c : List (Int × Nat)) (N w : Nat) (s : Nat × String × List Inter)
     (h : SectReady tbl c N s) : writeSection m c w s = .ok (sectionLines m c w s) := by
@@ -228,12 +235,21 @@ theorem write_ok (tbl : List (String × Arity)) (m : Mol) (h : WfFacts tbl m) : 
     (fun s hs => writeSection_ok tbl m _ _ _ s (h.sections s hs))]
   rfl
 
+theorem writeOrd_ok (tbl : List (String × Arity)) (m : Mol) (h : WfFacts tbl m) (names : List String) :
+    writeOrd m names = .ok (fileLinesOrd m names) := by
+  have hall : m.atoms.all atomOk = true := List.all_eq_true.mpr h.atomsOk
+  unfold writeOrd writeBodyOrd
+  simp only [h.nonempty, hall, Bool.not_true, Bool.false_eq_true, if_false]
+  rw [mapM_except_ok_of_forall _ (sectionLines m (correspondence m) (widthsOf m).idx) _
+    (fun s hs => writeSection_ok tbl m _ _ _ s (h.sections s hs))]
+  rfl
+
 end C02
 
 namespace C02
 
-theorem run_fileLines (tbl : List (String × Arity)) (m : Mol) (h : WfFacts tbl m) :
-    ∃ sct, run tbl PState.init (fileLines m) = .ok ⟨sct, [], canon m⟩ := by
+theorem run_fileLinesOrd (tbl : List (String × Arity)) (m : Mol) (h : WfFacts tbl m) (names : List String) :
+    ∃ sct, run tbl PState.init (fileLinesOrd m names) = .ok ⟨sct, [], canon m⟩ := by
   let A := (sortedNodes m).map toPAtom
   let I := (sortInteractions m).flatMap (fun s => (sortInters s.2.2).map (toPInter (correspondence m) s.2.1))
   let st1 : PState := ⟨some "moleculetype", [], ⟨some (m.moltype, m.nrexcl), [], []⟩⟩
@@ -246,28 +262,32 @@ theorem run_fileLines (tbl : List (String × Arity)) (m : Mol) (h : WfFacts tbl 
       simpa [st2, A, sortedNodes_length] using this)
     h.pre h.post
   let st3 : PState := ⟨sct1, [], ⟨some (m.moltype, m.nrexcl), A, [] ++ I⟩⟩
-  obtain ⟨sct2, h2⟩ := run_remaining tbl m (remainingNames m) st3 h.pre h.post
+  obtain ⟨sct2, h2⟩ := run_remaining tbl m names st3 h.pre h.post
   refine ⟨sct2, ?_⟩
   have e1 : run tbl PState.init (prelude m ++ (atomsPart m ++
       (((sortInteractions m).map (sectionLines m (correspondence m) (widthsOf m).idx)).flatten
-        ++ remainingPart m)))
+        ++ remainingPartOf m names)))
       = run tbl st1 (atomsPart m ++
       (((sortInteractions m).map (sectionLines m (correspondence m) (widthsOf m).idx)).flatten
-        ++ remainingPart m)) :=
+        ++ remainingPartOf m names)) :=
     run_append_ok tbl _ st1 _ _ (run_prelude tbl m h.moltype)
   have e2 : run tbl st1 (atomsPart m ++
       (((sortInteractions m).map (sectionLines m (correspondence m) (widthsOf m).idx)).flatten
-        ++ remainingPart m))
+        ++ remainingPartOf m names))
       = run tbl st2 (((sortInteractions m).map (sectionLines m (correspondence m) (widthsOf m).idx)).flatten
-        ++ remainingPart m) :=
+        ++ remainingPartOf m names) :=
     run_append_ok tbl st1 st2 _ _ (run_atomsPart tbl m st1 rfl h.pre h.post h.atomsOk)
   have e3 : run tbl st2 (((sortInteractions m).map (sectionLines m (correspondence m) (widthsOf m).idx)).flatten
-        ++ remainingPart m) = run tbl st3 (remainingPart m) :=
+        ++ remainingPartOf m names) = run tbl st3 (remainingPartOf m names) :=
     run_append_ok tbl st2 st3 _ _ h1
-  unfold fileLines
+  unfold fileLinesOrd
   rw [List.append_assoc, List.append_assoc, e1, e2, e3]
-  unfold remainingPart
+  unfold remainingPartOf
   rw [h2]
   simp [st3, canon, A, I]
+
+theorem run_fileLines (tbl : List (String × Arity)) (m : Mol) (h : WfFacts tbl m) :
+    ∃ sct, run tbl PState.init (fileLines m) = .ok ⟨sct, [], canon m⟩ :=
+  run_fileLinesOrd tbl m h (remainingNames m)
 
 end C02
